@@ -463,3 +463,8 @@ def prune_source_literals_unit(ctx):
     ctx.check("works-on-a-copy-unless-inplace;returns-the-plan-it-worked-on", bool(("get_mutable_plan", given, inplace) in log and r is work), props=["C13"])
     ctx.check("source-test-asked-of-the-working-graph", bool(all(e[1] is work.graph for e in log if e[0] == "is_source_node")), props=["C13"])
     return "ok"
+
+
+from .sysprobe import replay_for as _replay_for  # noqa: E402
+
+REPLAYS = [("pruning.*", _replay_for(['C01', 'C04', 'C05', 'C09', 'C03'], 1500))]
